@@ -258,6 +258,10 @@ func loadCorpus() {
 // (most of them were added after a seeded change slipped through because no workload
 // document had the construct). They join repoDocs and are therefore mutated and spliced too.
 var exoticDocs = []string{
+	// attribute blocks that repeat a name or mix the shorthand and the long form (values are merged)
+	"## Title {class=a .b}\n", "## T ## {class=a .b} x\n", "# h {.a class=b .c class=\"d e\"}\n", "h {class=a class=b}\n===\n", "# h {#i id=j .k}\n", "### h {class=first .second .third k=v k=w}\n\ntext\n",
+	// headings whose ids differ only in separators at the edges
+	"# a\n\n# a_\n\n# a -\n\n# -a\n\n# a--\n\n# a-1-\n\n# a\n", "# FAQ\n\n## FAQ -\n\nRelease notes\n===\n\n## Release notes \u2728\n",
 	"# h {id=\"a<b\" class=\"c&d\" data-x='y\"z'}\n\nh {.a Class=1 cLASS=null}\n===\n\n## t {#i .c k=v title=\"q\"}\n",
 	"# a {ID=x #y Id=\"z\"}\n\n## b {class=1 .c}\n\n### c {style=\"x:y\" lang=en}\n\n#### d {.a .b .a}\n",
 	"<DIV>\nx\n</DIV>\n\n<Table>\n<TR><TD>a</TD></TR>\n</Table>\n\n<sCript>\ny\n</sCript>\n\n<Pre>\nz\n</Pre>\n\ntext <Span CLASS=\"x\">i</Span> <BR/>\n",
